@@ -3,7 +3,7 @@ from props import lifecycle
 
 
 def check(run):
-    return lifecycle.check(run, "C10", ["general", "pipeline", "deep", "long"])
+    return lifecycle.check(run, "C10", ["general", "pipeline", "deep", "panic", "long"])
 
 
 def replay(run, path):
